@@ -51,7 +51,7 @@ def check(ctx):
             for mode in MODES:
                 check_kernel(ctx, KE, fam, mode, backend, outputs=("mu_r", "mu_i", "M2"), rule="R2-scatter-statistic")
     check_never_negative(ctx)
-    table_purity(ctx)
+    table_purity(ctx, cells=EMP, T=T)
     ctx.trust("E4 partial evaluation of __getattr__", "E5 kernel summaries (L1, L2, L17)")
     ctx.assume("exact arithmetic; nan_to_num is the identity on finite values")
     return ("XY_emp_var = M2/navg, XY_emp_dev = sqrt(M2/navg), G{xx,xy}_emp_dev = 2/(fs*S2)*sqrt(M2/navg) and their applicability (None matrix) are "
